@@ -159,17 +159,20 @@ def run(run, replay=None):
         cases.append({'id': len(cases), 'tree': tree, 'after': after, 'after2': after2, 'exc': exc})
         run.count(repr(tree), nontrivial=True)
     run.notes['trees_from_MC_Stats'] = len(mtrees)
-    can = []
-    pool = [c for c in cases if len(c['after']) >= 3]
-    for k, c in enumerate(rng.sample(pool, min(8, len(pool)))):
-        z = copy.deepcopy(c)
-        z['canary_of'] = z['id']
-        z['id'] = 'canary-%d' % k
-        m = z['after'][0]
-        st = [it for it in m['items'] if bytes(it['k']) == b'stats'][0]['v']
-        tgt = [it for it in st['items'] if bytes(it['k']) == (b'files' if k % 2 else b'insertions')][0]['v']
-        tgt['n'] += 1
-        can.append(z)
+    def _mk_canaries():
+        can = []
+        pool = [c for c in cases if len(c['after']) >= 3]
+        for k, c in enumerate(rng.sample(pool, min(8, len(pool)))):
+            z = copy.deepcopy(c)
+            z['canary_of'] = z['id']
+            z['id'] = 'canary-%d' % k
+            m = z['after'][0]
+            st = [it for it in m['items'] if bytes(it['k']) == b'stats'][0]['v']
+            tgt = [it for it in st['items'] if bytes(it['k']) == (b'files' if k % 2 else b'insertions')][0]['v']
+            tgt['n'] += 1
+            can.append(z)
+        return can
+    can = run.tolerant(_mk_canaries)
     run.judge('Trace_Stats', cases + can, cat.tables(), canary_ids=[c['id'] for c in can],
               describe=lambda c: {'tree': c['tree'], 'after': c['after']})
     return run.finish(
